@@ -33,7 +33,7 @@ def one(diff):
             return name, ["does not build: " + o.strip()[:200]]
         for p in PROPS:
             env = dict(ENV, GEDCOM_REPO=tmp, VERIF_REPLAY_DIR=os.path.join(tmp, ".replay"))
-            rc, o = sh("/verif/bin/gedcheck -prop %s -tier quick" % p, "/verif", env=env)
+            rc, o = sh("%s -prop %s -tier quick" % (os.environ.get("GEDCHECK_BIN", "/verif/bin/gedcheck"), p), "/verif", env=env)
             if rc != 0:
                 first = [l.strip() for l in o.splitlines() if l.startswith("  rule=") or l.startswith("UNDECIDED") or l.startswith("ANALYSIS")][:3]
                 out.append("%s exit %d: %s" % (p, rc, " || ".join(first)[:600]))
@@ -46,7 +46,8 @@ def main():
     d = sys.argv[1]
     jobs = int(sys.argv[2]) if len(sys.argv) > 2 else 6
     diffs = sorted(glob.glob(os.path.join(d, "refactor*.diff")))
-    sh("./check.sh C12 quick", "/verif")
+    if not os.environ.get("GEDCHECK_BIN"):
+        sh("./check.sh C12 quick", "/verif")
     with concurrent.futures.ThreadPoolExecutor(max_workers=jobs) as ex:
         for name, out in ex.map(one, diffs):
             print(name, "SILENT" if not out else "")
